@@ -231,6 +231,109 @@ def critical_followers(tier, seed, start):
     return ps, i
 
 
+def flag_programs(tier, seed, start):
+    """`~` attaches to exactly the operator it precedes - for EVERY operator, also the operand-less ones.  Two branches:
+    branch 0 is `INPUT [~]X operands -> tapb`, branch 1 logs A in the other step.  With `~X` the operator (and the tapb after it)
+    belongs to step 1, so B must come after A (A = step 0 of branch 1); without `~` it belongs to step 0 and branch 1's `~-> tapa`
+    comes after it.  The value must equal the documented chain in both cases."""
+    ps = []
+    i = start
+    for nm in OP_NAMES:
+        for t in INPUT_TYPES:
+            probe = Ctx(random.Random(3))
+            st0 = OPS[nm](probe, t)
+            if st0 is None:
+                continue
+            for deferred in (True, False):
+                i += 1
+                pid = "p%04d" % i
+                ctx = Ctx(rng(seed, pid), itlen=2)
+                inp = ctx.value(t)
+                st = None
+                for _ in range(6):
+                    st = OPS[nm](ctx, t)
+                    if st is not None:
+                        break
+                if st is None:
+                    continue
+                cmpf = finish(st.out)
+                kb = ctx.k()
+                if deferred:
+                    text = "join! { %s ~%s -> tapb, %s -> tapa }" % (inp, st.mac, kb)
+                    order = "first(140) < first(141)"
+                    what = "`~X` belongs to the next step: it runs after the other branch finished the previous step"
+                else:
+                    text = "join! { %s %s -> tapb, %s ~-> tapa }" % (inp, st.mac, kb)
+                    order = "first(141) < first(140)"
+                    what = "an operator without `~` belongs to the current step"
+                L = list(ctx.decls)
+                L.append("let m = %s;" % text)
+                L.append("vassert!(cnt(140) == 1 && cnt(141) == 1 && %s, \"C14[%s]: %s\");" % (order, pid, what))
+                L.append("reset_calls();")
+                L.append("let r = %s;" % st.ref(inp))
+                L.append("vassert!(%s && m.1 == %s, \"C14[%s]: value == documented chain\");" % (cmpf("m.0", "r"), kb, pid))
+                L.append("vcover!(true, \"end reached\");")
+                w = 1 + (40 if nm == "?&!>" else 0) + (4 if t[0] == "it" else 0)
+                prog = Program(pid, text, "    " + "\n    ".join(L), desc=dict(operator=nm, deferred=deferred, input_type=str(t)), group="flags", role=dict(kind="join"), unwind=44 if "usize" in str(st.out) and "vec" in str(st.out) else 12, weight=w)
+                if tier == "quick" and w > 14:
+                    continue
+                ps.append(prog)
+            break   # one input type per operator is enough here (the flag logic does not depend on types)
+    return ps, i
+
+
+def type_operands(tier, seed, start):
+    """type operands of `=>[]` and `<->` whose own text contains commas and `>>` at the top level of the operand
+    (inside angle brackets, which are not token groups), followed by operators that start with `>` or by a comma"""
+    ps = []
+    i = start
+    cases = [
+        ("[(mk({F}, {K}), {K})].into_iter() <-> Result<u8, u8>, u8, Vec<Result<u8, u8>>, Vec<u8>",
+         "[(mk({F}, {K}), {K})].into_iter().unzip::<Result<u8, u8>, u8, Vec<Result<u8, u8>>, Vec<u8>>()", ""),
+        ("[(mk({F}, {K}), {K})].into_iter() <-> Result<u8, u8>, u8, Vec<Result<u8, u8>>, Vec<u8> >. 0 .. len()",
+         "[(mk({F}, {K}), {K})].into_iter().unzip::<Result<u8, u8>, u8, Vec<Result<u8, u8>>, Vec<u8>>().0.len()", ""),
+        ("[mk({F}, {K}), mk({F}, {K})].into_iter() =>[] Vec<Result<u8, u8>> >. len()",
+         "[mk({F}, {K}), mk({F}, {K})].into_iter().collect::<Vec<Result<u8, u8>>>().len()", ""),
+        ("[mk({F}, {K}), mk({F}, {K})].into_iter() =>[] Vec<Result<u8, u8>> .. is_empty()",
+         "[mk({F}, {K}), mk({F}, {K})].into_iter().collect::<Vec<Result<u8, u8>>>().is_empty()", ""),
+        ("[wrapv({K}), wrapv({K})].into_iter() =>[] Vec<Vec<u8>> >. len()",
+         "[wrapv({K}), wrapv({K})].into_iter().collect::<Vec<Vec<u8>>>().len()", ""),
+        ("[wrapv({K})].into_iter() =>[] Vec<Vec<u8>> -> move |v: Vec<Vec<u8>>| v.len()",
+         "(move |v: Vec<Vec<u8>>| v.len())([wrapv({K})].into_iter().collect::<Vec<Vec<u8>>>())", ""),
+        ("[mk({F}, {K})].into_iter() =>[] Vec<Result<u8, u8>>, {K} -> tapa",
+         None, "two-branch"),
+        ("[({K}, mk({F}, {K}))].into_iter() ~<-> u8, Result<u8, u8>, Vec<u8>, Vec<Result<u8, u8>> ~-> move |v: (Vec<u8>, Vec<Result<u8, u8>>)| v.1",
+         "(move |v: (Vec<u8>, Vec<Result<u8, u8>>)| v.1)([({K}, mk({F}, {K}))].into_iter().unzip::<u8, Result<u8, u8>, Vec<u8>, Vec<Result<u8, u8>>>())", ""),
+    ]
+    import re as _re
+    for mtxt, rtxt, kind in cases:
+        i += 1
+        pid = "p%04d" % i
+        ctx = Ctx(rng(seed, pid))
+        toks = _re.findall(r"\{K\}|\{F\}", mtxt)
+        m, r = mtxt, rtxt
+        vals = []
+        for tk in toks:
+            v = ctx.f() if tk == "{F}" else ctx.k()
+            vals.append(v)
+            m = m.replace(tk, v, 1)
+            if r is not None:
+                r = r.replace(tk, v, 1)
+        L = list(ctx.decls)
+        if kind == "two-branch":
+            text = "join! { %s }" % m
+            L.append("let m = %s;" % text)
+            L.append("vassert!(m.0 == [mk(%s, %s)].into_iter().collect::<Vec<Result<u8, u8>>>() && m.1 == %s && cnt(140) == 1, \"C14[%s]: a comma after a type operand that itself contains a comma separates branches\");" % (vals[0], vals[1], vals[2], pid))
+        else:
+            text = "join! { %s }" % m
+            L.append("let m = %s;" % text)
+            L.append("let r = %s;" % r)
+            L.append("vassert!(m == r, \"C14[%s]: type operands containing commas / `>>` are taken whole\");" % pid)
+        L.append("vcover!(true, \"end reached\");")
+        ps.append(Program(pid, text, "    " + "\n    ".join(L), desc=dict(kind="type operands"), group="types", role=dict(kind="join"), unwind=44, weight=4))
+    return ps, i
+
+
 def adjacency(tier, seed, start):
     """overlapping families next to each other, operand-less operators followed by commas / handlers / other operators"""
     ps = []
@@ -336,6 +439,10 @@ def programs(tier, seed):
     a, i = adversarial(tier, seed, 0)
     ps += a
     a, i = critical_followers(tier, seed, i)
+    ps += a
+    a, i = flag_programs(tier, seed, i)
+    ps += a
+    a, i = type_operands(tier, seed, i)
     ps += a
     a, i = adjacency(tier, seed, i)
     ps += a
